@@ -325,16 +325,19 @@ example : ¬ ((0 : ℕ) = 0 ∧ (1 : ℕ) = 0) := by decide
 
 /-- **(0,0) against (i,j) ≠ (0,0), spend side and text.** The public spend key of the subaddress equals the primary spend key
 EXACTLY WHEN the subaddress scalar `m = Hs("SubAddr\0" ‖ v ‖ i ‖ j)` is 0; and if it is not, the spend keys, their encodings, the
-secret spend keys (for every `s`, reduced or not) and the texts of `get_subaddress` at (i,j) and at (0,0) (every checksum function,
-every network) all differ. Needs the base point of order exactly `l` and 32-byte encodings. -/
+secret spend keys AS SCALARS (residues mod `l`) and the texts of `get_subaddress` at (i,j) and at (0,0) (every checksum function,
+every network) all differ. The primary side is written with the functions at index (0,0) (`subSpendPub … 0 0` is `S`, `subSpendSec … 0 0`
+is `s`: `C11_zero_index`). The secret at (0,0) is returned unreduced by the model while the one at (i,j) is `< l`, so a comparison of the
+two NATURALS would hold for the wrong reason when `s ≥ l`; the conjunct therefore compares with `s % l` (Rust's `PrivateKey` only has
+`s < l`, where `% l` is the identity). Needs the base point of order exactly `l` and 32-byte encodings. -/
 theorem C11_primary_vs_subaddress (L : Lawful ops) (hord : ∀ k, k < ops.l → k • ops.base = 0 → k = 0)
     (hlen : ∀ A : P, (ops.enc A).length = 32) (H : Bytes → Bytes) (v s : ℕ) (S : P) (i j : ℕ) (hij : ¬ (i = 0 ∧ j = 0))
     (network : Option Net) :
     (subSpendPub ops v S i j = subSpendPub ops v S 0 0 ↔ hsOf ops (subPreimage v i j) = 0) ∧
-    subSpendPub ops v S 0 0 = S ∧
     (hsOf ops (subPreimage v i j) = 0 ∨
-      (subSpendPub ops v S i j ≠ S ∧ ops.enc (subSpendPub ops v S i j) ≠ ops.enc S ∧
-       subSpendSec ops v s i j ≠ subSpendSec ops v s 0 0 ∧
+      (subSpendPub ops v S i j ≠ subSpendPub ops v S 0 0 ∧
+       ops.enc (subSpendPub ops v S i j) ≠ ops.enc (subSpendPub ops v S 0 0) ∧
+       subSpendSec ops v s i j ≠ subSpendSec ops v s 0 0 % ops.l ∧
        Address.toStr H (getSubaddress ops v S i j network) ≠ Address.toStr H (getSubaddress ops v S 0 0 network))) := by
   have hm := hsOf_lt ops L.l_pos (subPreimage v i j)
   have e : ∀ T : P, subSpendPub ops v T i j = T + hsOf ops (subPreimage v i j) • ops.base := by
@@ -350,7 +353,9 @@ theorem C11_primary_vs_subaddress (L : Lawful ops) (hord : ∀ k, k < ops.l → 
       have h' : T + hsOf ops (subPreimage v i j) • ops.base = T + 0 • ops.base := by rw [zero_smul, add_zero]; exact h
       exact add_smul_base_inj hord T _ 0 hm L.l_pos h'
     · intro h; rw [h, zero_smul, add_zero]
-  refine ⟨hiff S, rfl, ?_⟩
+  have h00 : subSpendPub ops v S 0 0 = S := rfl
+  rw [h00]
+  refine ⟨hiff S, ?_⟩
   by_cases hc : hsOf ops (subPreimage v i j) = 0
   · exact Or.inl hc
   right
@@ -359,7 +364,7 @@ theorem C11_primary_vs_subaddress (L : Lawful ops) (hord : ∀ k, k < ops.l → 
   · intro h
     apply hpub (s • ops.base)
     rw [← L.subSpendSec_pub v s _ rfl i j, h]
-    rfl
+    exact L.smul_mod_base s
   · intro h
     rw [(C11_address L H v S i j network).2.2.2.2.2.2.2.2, (C11_address L H v S 0 0 network).2.2.2.2.2.2.2.2] at h
     exact hpub S (L.enc_inj (text_spend_inj H _ _ _ _ _ _ _ _ (by rw [hlen, hlen]) (Option.some.inj h)))
